@@ -93,14 +93,31 @@ def convert_script(obj, sid, src, tick_ms=TICK_MS, gated=False):
             steps.append({"op": "reload", "p": s["p"], "v": s["v"]})
         else:
             steps.append({"op": op})
-        if s.get("lab") and op != "init":
-            steps[-1]["lab"] = s["lab"]     # the model transition this step was derived from (lib/conform.py)
+        if op != "init":
+            # the model transition this step was derived from (lib/conform.py, lib/impltrace.py)
+            steps[-1]["lab"] = s.get("lab") or json.dumps({k: s.get(k, d) for k, d in
+                                                         (("op", ""), ("p", 0), ("j", 0), ("t", 0), ("o", ""), ("v", 0), ("bad", "none"))}, sort_keys=True)
     steps.append({"op": "drain"})
     r = {"id": sid, "src": src, "np": np_, "vers": vers, "init": init, "steps": steps, "seed": 0, "gated": gated}
     if "root" in obj:
         r["root"] = obj["root"]
         r["graph"] = obj["graph"]
     return r
+
+
+SIM_GATED_TICK_MS = 200
+
+
+def gated_ok(steps, tick_ms):
+    n = 0
+    for s in steps:
+        if s["op"] in ("longadv", "restart"):
+            n = 0
+        elif s["op"] == "tick":
+            n += 1
+            if n * tick_ms > 2400:
+                return False
+    return True
 
 
 def via_mix(scripts, sd):
@@ -124,7 +141,12 @@ def simulate_scripts(work, cfgname, module, num, depth, sd, workers=4, timeout=9
                 obj = json.loads(json.loads(line))
             except ValueError:
                 continue
-            scripts.append(convert_script(obj, "%s-%d-%05d" % (tag, sd, len(scripts) + 1), "tlc-simulate %s seed %d" % (cfgname, sd)))
+            # every second behaviour runs step by step (gated) and is validated by TLC against the specification's actions
+            # (lib/impltrace.py), unless its ticks would outlast the 3 s pauses that the model only ends by LongAdv
+            gated = len(scripts) % 2 == 1 and gated_ok(obj["steps"], SIM_GATED_TICK_MS)
+            scripts.append(convert_script(obj, "%s-%d-%05d" % (tag, sd, len(scripts) + 1), "tlc-simulate %s seed %d" % (cfgname, sd),
+                                          tick_ms=SIM_GATED_TICK_MS if gated else TICK_MS, gated=gated))
+            scripts[-1]["itsrc"] = tag
     if not scripts:
         raise Infra("TLC simulation produced no scripts:\n" + out[-3000:])
     return scripts
@@ -144,6 +166,7 @@ def edge_scripts(work, module, cfg, tag, workers=4, timeout=900):
         obj = {"np": len(pl["cfg"]), "vers": json.loads(json.dumps(vers)), "steps": init + pl["steps"], "root": pl["root"], "graph": tag}
         # edge-cover scripts run gated (one scheduler iteration per poll step, long ticks); every step names its model transition
         scripts.append(convert_script(obj, "%s-%05d" % (tag, i + 1), "edge cover of %s" % cfg, tick_ms=GATED_TICK_MS, gated=True))
+        scripts[-1]["itsrc"] = tag
     stats["config"] = cfg
     stats["scripts"] = len(scripts)
     import pickle
@@ -395,6 +418,11 @@ def engine(tier):
             # the TLC runs that generate scripts, and the exhaustive model checks, run side by side
             pool = ThreadPoolExecutor(max_workers=6)
             gen_jobs = []
+            it_sources = {}
+            for module, cfg, tag in TIERS[tier].get("edges", []):
+                it_sources[tag] = (module.replace("Edges_", "MC_"), cfg.replace("Edges_", "MC_"))
+            for module, cfg, num, depth in TIERS[tier]["sim"]:
+                it_sources[cfg[4:-4].lower()] = (module, cfg)
             for module, cfg, tag in TIERS[tier].get("edges", []):
                 if os.path.exists(os.path.join(work, cfg)):
                     gen_jobs.append(("edge", pool.submit(edge_scripts, work, module, cfg, tag)))
@@ -416,19 +444,29 @@ def engine(tier):
                 sc["seed"] = seed() * 1000 + i
                 # a third of the life-cycle scripts run on a slow data store (saves in flight); explicit saves racing with the
                 # persist loop are not part of those scripts
-                if sc["id"].startswith("life-") and i % 3 == 0:
+                if sc["id"].startswith("life-") and i % 3 == 0 and not sc.get("gated"):
                     sc["slow"] = True
                     sc["steps"] = [s for s in sc["steps"] if s["op"] != "save"]
             via_mix(scripts, seed())
             t1 = time.time()
             traces, crashes = execute(driver, scripts, d)
-            # strict conformance of the gated edge-cover scripts with the model they were derived from (diagnostic, lib/conform.py)
+            # strict conformance of the gated scripts with the model they were derived from (diagnostic): the edge covers
+            # against the TLC-dumped transition graph (lib/conform.py), all gated scripts by TLC itself (lib/impltrace.py)
             import conform
+            import impltrace
             conf = conform.validate(work, scripts, traces)
             for dr in conf["drift"][:20]:
                 sys.stderr.write("CONFORM-DRIFT %s\n" % json.dumps(dr))
             conf["drift_count"] = len(conf["drift"])
             conf["drift"] = conf["drift"][:20]
+            ops = conform.op_lines(traces, {s["id"] for s in scripts if s.get("gated") and s.get("itsrc")})
+            it_jobs = []
+            for tag, (module, cfg) in it_sources.items():
+                mine = [s for s in scripts if s.get("gated") and s.get("itsrc") == tag and not s.get("slow")]
+                if mine and os.path.exists(os.path.join(work, cfg)):
+                    feats = re.search(r"(?:MC|Sim)Features == \{([^}]*)\}", open(os.path.join(work, module)).read())
+                    with_store = bool(feats and '"persist"' in feats.group(1))
+                    it_jobs.append((tag, pool.submit(impltrace.validate, work, tag, module, cfg, mine, ops, with_store, 3)))
             t2 = time.time()
             # one monitor pass with every formula: on a tree where everything holds the per-property checks need no further TLC run
             allnames = sorted({n for v in INVS.values() for n in v})
@@ -436,6 +474,14 @@ def engine(tier):
             failing = sorted({v["formula"] for v in first})
             t2b = time.time()
             mc = mc_future.result()
+            tlc_validation = []
+            for tag, fut in it_jobs:
+                r = fut.result()
+                r["source"] = tag
+                tlc_validation.append(r)
+                for sid in r["rejected"][:5]:
+                    sys.stderr.write("CONFORM-REJECTED %s: no behaviour of Prunner.tla explains the recorded steps of script %s\n" % (tag, sid))
+            conf["tlc_trace_validation"] = tlc_validation
             pool.shutdown()
         with open(os.path.join(d, "scripts.ndjson"), "w") as f:
             for sc in scripts:
